@@ -795,9 +795,15 @@ class Processor:
                 compare_node = (all_anchors[parentref]
                                 if parentref in all_anchors
                                 else None)
+                # Only an Anchor segment can name a YAML Merge Key reference;
+                # any other segment names a key, even one spelled like the
+                # Anchor of a merged Hash.
                 is_ymk_anchor = (
                     compare_node is not None
-                    and isinstance(compare_node, dict))
+                    and isinstance(compare_node, dict)
+                    and (delete_nc.path_segment is None
+                         or delete_nc.path_segment[0]
+                             is PathSegmentTypes.ANCHOR))
 
                 if (is_ymk_anchor
                     and isinstance(parent, CommentedMap)
